@@ -165,6 +165,10 @@ func newFromPassword(password []byte, cost int) (*hashed, error) {
 	return p, err
 }
 
+// errMalformedHash is returned when the separators or the cost field of a
+// hashed password are not in the "$2a$10$" form.
+var errMalformedHash = errors.New("crypto/bcrypt: hashedSecret is malformed")
+
 func newFromHash(hashedSecret []byte) (*hashed, error) {
 	if len(hashedSecret) < minHashSize {
 		return nil, ErrHashTooShort
@@ -274,12 +278,18 @@ func (p *hashed) decodeVersion(sbytes []byte) (int, error) {
 	if sbytes[2] != '$' {
 		p.minor = sbytes[2]
 		n++
+		if sbytes[3] != '$' {
+			return -1, errMalformedHash
+		}
 	}
 	return n, nil
 }
 
 // sbytes should begin where decodeVersion left off.
 func (p *hashed) decodeCost(sbytes []byte) (int, error) {
+	if sbytes[0] < '0' || sbytes[0] > '9' || sbytes[1] < '0' || sbytes[1] > '9' || sbytes[2] != '$' {
+		return -1, errMalformedHash
+	}
 	cost, err := strconv.Atoi(string(sbytes[0:2]))
 	if err != nil {
 		return -1, err
